@@ -4,7 +4,7 @@ from .c05 import env_of
 
 PLAN = {
     "quick": {"shards": 8, "cases": 700, "min_nontrivial": 2500, "budget_s": 300},
-    "thorough": {"shards": 16, "cases": 4500, "min_nontrivial": 25000, "budget_s": 1500},
+    "thorough": {"shards": 16, "cases": 12000, "min_nontrivial": 67200, "budget_s": 1500},
 }
 RULE = ("a case is a random schema (all field families, nested schemas, config types, lists of schemas/config types, "
         "typed and untyped lists/dicts, dynamic schemas; defaults emitted in normal form) plus a history of 5-60 public "
